@@ -279,4 +279,23 @@ theorem new_fsz (kind : Kind) (bs : Nat) (d : Bytes) (cs csPre : List Nat) (hbs 
     · subst hd; rfl
     · exact (xz_new bs d cs csPre hbs hd).2.2.1
 
+/-! ### which .gz files `BlockReader::new` refuses by size -/
+
+/-- the size test of the gz arm of `BlockReader::new` as a parameterised predicate: `onDiskOnly = true` refuses a file
+whose size ON DISK exceeds `GZ_MAX_SZ`; `false` (the other shape) refuses by the uncompressed size of the trailer -/
+def gzRefused (onDiskOnly : Bool) (diskSz uncompressedSz : Nat) : Bool :=
+  if onDiskOnly then decide (GZ_MAX_SZ < diskSz) else decide (GZ_MAX_SZ < uncompressedSz)
+
+/-- **C05_gz_accepts_by_disk_size.** Unfolds the regenerated `GZ_LIMIT_ON_DISK_SIZE_ONLY`: a .gz at most `GZ_MAX_SZ`
+bytes on disk is never refused for its size, however much it inflates to (the streamed reader then assembles the
+plain file's blocks: `assemble_eq`). -/
+theorem C05_gz_accepts_by_disk_size (diskSz uncompressedSz : Nat) (h : diskSz ≤ GZ_MAX_SZ) :
+    gzRefused GZ_LIMIT_ON_DISK_SIZE_ONLY diskSz uncompressedSz = false := by
+  have hg : GZ_LIMIT_ON_DISK_SIZE_ONLY = true := by decide
+  simp [gzRefused, hg]; omega
+
+/-- counter-model (seeded change C05-e): with the limit on the uncompressed size a 7.7 MB .gz that inflates to
+537 000 960 bytes is refused, although the same bytes print as a plain file -/
+theorem limit_on_uncompressed_size_refuses : gzRefused false 7700000 537000960 = true := by decide
+
 end S4V.Props.StreamSpec
